@@ -52,6 +52,8 @@ func lookupKeyPaths(a *apath, fn *ssa.Function) map[string]bool {
 func C06(e *Env) {
 	r := e.R
 	e.analysedBase()
+	yamlKeysRule(e, "R11.12", "services", "parameters", "decorators", "arguments", "calls", "fields")
+	e.R.Rule("R11.12", "key table (shared with C11): every position that can hold a reference is recognised under its documented spelling", 6)
 	r.Rule("R06.1", "coverage by type: every path from output.Output to a DependsOnParams list (plus Params[*].DependsOn) is looked up in the declared-parameter set by ValidateParamsExist, every path to a DependsOnServices list in the declared-service set by ValidateServicesExist; the required paths are enumerated from the types, so a new position is required automatically", 9)
 	r.Rule("R06.2", "Service.AllArgs returns the elements of every path from output.Service to a value of type Arg (constructor arguments, call arguments, field values)", 3)
 	r.Rule("R06.3", "the declared sets are filled from every parameter / service unconditionally (todo ones included)", 2)
@@ -716,6 +718,8 @@ func isLoopHeader(b *ssa.BasicBlock) bool {
 func C07(e *Env) {
 	r := e.R
 	e.analysedBase()
+	yamlKeysRule(e, "R11.12", "services", "parameters", "decorators", "arguments", "calls", "fields", "tags")
+	e.R.Rule("R11.12", "key table (shared with C11): every position that can hold a dependency is recognised under its documented spelling", 7)
 	r.Rule("R07.1", "graph coverage by type: BuildDependencyGraph hands every dependency-carrying path of output.Output to the graph builder method of its kind — services with their tag names, service→service/tag/param edges over all argument positions, decorators with their tag and their service/tag/param edges, param→param edges", 14)
 	r.Rule("R07.2", "ValidateCircularDeps returns exactly the error derived from graph.CircularDepsToError(graph.CircularDeps()) of that graph", 2)
 	r.Rule("R07.3", "the cycle validator is wired into the output validation step and cannot be switched off", 3)
